@@ -6,8 +6,11 @@ import itertools
 from common import Result, pmap, compare, enc_value, dec_outcome, call_outcome, canon_py, thaw, ERR
 
 ID = 'C12'
-COQ_FILES = ['Properties/C12.v', 'Proofs/LogicProofs.v', 'Proofs/LogicAlgebra.v', 'Proofs/ValueProofs.v']
+COQ_FILES = ['Properties/C12.v', 'Proofs/LogicProofs.v', 'Proofs/LogicAlgebra.v', 'Proofs/LogicSource.v', 'Model/LogicShape.v', 'Gen/LogicFns.v', 'Proofs/ValueProofs.v']
 TRUSTED = [
+    'Gen/LogicFns.v is regenerated on every run by tools/gen/logicshape.py (python ast, fail-closed) from AND/OR/XOR/NOT/IF '
+    'and _first_error of formulas/logic.py; Model/LogicShape.v gives the shapes their meaning by hand (utils.flatten = '
+    'flatten_args, all/any/sum(bool)&1, not, conditional expression)',
     'modelled, not verified: Python truthiness, ==, all/any/sum, isinstance on the value classes int, float, bool, str, '
     'None, XLError, datetime, list (Model/Value.v); floats are the exact rationals they denote',
 ]
@@ -23,6 +26,18 @@ ASSUMPTIONS = ['arguments are ints, floats, logicals, blanks, text, errors, date
 FN = {'AND': 0, 'OR': 1, 'XOR': 2, 'NOT': 3, 'IF': 4, 'IFS': 5, 'SWITCH': 6, 'ISNUMBER': 10, 'ISTEXT': 11, 'ISLOGICAL': 12,
       'ISBLANK': 13, 'ISERROR': 14, 'ISERR': 15, 'ISNA': 16, 'ISNONTEXT': 17, 'ISEVEN': 18, 'ISODD': 19}
 PREDS = ['ISNUMBER', 'ISTEXT', 'ISLOGICAL', 'ISBLANK', 'ISERROR', 'ISERR', 'ISNA', 'ISNONTEXT', 'ISEVEN', 'ISODD']
+
+
+def gen(ctx):
+    import os
+    import sys
+    from common import VERIF
+    sys.path.insert(0, os.path.join(VERIF, 'tools', 'gen'))
+    import logicshape
+    root = os.environ.get('VERIF_SNAPSHOT', '/repo')
+    ch, ok, notes = logicshape.write(os.path.join(VERIF, 'coq', 'Gen', 'LogicFns.v'), root)
+    return {'Gen/LogicFns.v': ('regenerated (changed)' if ch else 'regenerated (identical to the committed baseline)')
+            + ('' if ok else '; NOT UNDERSTOOD: ' + '; '.join(notes))}
 
 
 def errs():
